@@ -40,9 +40,45 @@ pub trait Hasher<F: RichField>: Sized + Copy {
     ;
 }
 
+//@item file=plonky2/src/hash/hash_types.rs kind=const name=NUM_HASH_OUT_ELTS
+//@item file=plonky2/src/hash/hash_types.rs kind=struct name=HashOut derive=Clone,Copy
+
+// HashOut is a plain array of field elements compared element-wise (derive(PartialEq)); T11
+impl<F: RichField> vstd::std_specs::cmp::PartialEqSpecImpl for HashOut<F> {
+    open spec fn obeys_eq_spec() -> bool {
+        true
+    }
+
+    open spec fn eq_spec(&self, other: &Self) -> bool {
+        *self == *other
+    }
+}
+
+impl<F: RichField> PartialEq for HashOut<F> {
+    #[verifier::external_body]
+    fn eq(&self, other: &Self) -> (r: bool)
+    {
+        unimplemented!()
+    }
+}
+
+impl<F: RichField> GenericHashOut<F> for HashOut<F> {
+    open spec fn elems(self) -> Seq<F> {
+        self.elements@
+    }
+
+    proof fn ax_eq() {
+    }
+
+    #[verifier::external_body]
+    fn to_vec(&self) -> (r: Vec<F>) {
+        unimplemented!()
+    }
+}
+
 // Generic configuration (plonk/config.rs): only the associated types are needed by the verified functions.
 pub trait GenericConfig<const D: usize>: Sized {
     type F: RichField + Extendable<D>;
     type Hasher: Hasher<Self::F>;
-    type InnerHasher: Hasher<Self::F>;
+    type InnerHasher: Hasher<Self::F, Hash = HashOut<Self::F>>;
 }
